@@ -62,6 +62,8 @@ func c04Render(ds []c04Decl, i int) string {
 			body = append(body, fmt.Sprintf("_ = %s()", t.name))
 		case "value":
 			body = append(body, fmt.Sprintf("%s := %s", v, t.name), fmt.Sprintf("_ = %s", v))
+		case "gcall":
+			body = append(body, fmt.Sprintf("_ = %s[uint64](3, 2)", t.name))
 		case "method-call":
 			if ds[t.recv].kind == "named" {
 				body = append(body, fmt.Sprintf("%s := new(%s)", v, ds[t.recv].name))
@@ -121,6 +123,9 @@ func c04Render(ds []c04Decl, i int) string {
 		}
 	}
 	switch d.kind {
+	case "gfunc":
+		// a generic function that calls itself (type argument inferred)
+		return fmt.Sprintf("func %s[T any](x T, n uint64) T {\n\t%s\n\tif n == 0 {\n\t\treturn x\n\t}\n\treturn %s(x, n-1)\n}\n", d.name, strings.Join(append(body, "_ = uint64(0)"), "\n\t"), d.name)
 	case "func":
 		return fmt.Sprintf("func %s(%s) uint64 {\n\t%s\n\treturn 1\n}\n", d.name, strings.Join(params, ", "), strings.Join(append(body, "_ = uint64(0)"), "\n\t"))
 	case "method":
@@ -371,6 +376,15 @@ func C04(c *ev.Ctx) {
 			}
 		}
 	}
+	// (c) a generic function that calls itself, a struct it mentions and a caller, in every order
+	{
+		ds := []c04Decl{{kind: "struct", name: "S0", recv: -1},
+			{kind: "gfunc", name: "G1", recv: -1, refs: []c04Ref{{to: 0, kind: "literal"}}},
+			{kind: "func", name: "F2", recv: -1, refs: []c04Ref{{to: 1, kind: "gcall"}}}}
+		for _, o := range perms(3) {
+			emit(ds, o, []string{"a.go"}, false)
+		}
+	}
 	// (b) a diamond written in every order and split over two files in both directions
 	{
 		ds := []c04Decl{{kind: "func", name: "Leaf", recv: -1},
@@ -484,6 +498,7 @@ func C04(c *ev.Ctx) {
 			break
 		}
 	}
+	c04Conversions(c)
 	// ---- rich generated packages (goosegen): declarations shuffled and split over files ----
 	gchecked := c04Rich(c, rr)
 	c.Set("rich_packages_checked", gchecked)
@@ -660,5 +675,98 @@ func c04CrashTriage(c *ev.Ctx, m *genModule, batchErr string) {
 	m.pkgs = all
 	if found == 0 {
 		c.Inconclusive("goose crashed on a C04 batch but on no package alone:\n%s", firstLines(batchErr, 12))
+	}
+}
+
+// c04Conversions: two functions pass the same struct where the same interface is expected (both need the generated
+// conversion S__to__I), a third one calls the second; every relative order, before and after the type declarations,
+// in one file and in two. The conversion must be defined exactly once, before every definition that mentions it.
+func c04Conversions(c *ev.Ctx) {
+	m, err := newGenModule(c, "mod-c04c")
+	if err != nil {
+		c.Inconclusive("module: %v", err)
+		return
+	}
+	defer os.RemoveAll(m.dir)
+	types := []string{"type Shape interface {\n\tarea() uint64\n}\n", "type Sq struct {\n\tw uint64\n}\n",
+		"func (s Sq) area() uint64 {\n\treturn s.w * s.w\n}\n", "func measure(s Shape) uint64 {\n\treturn s.area()\n}\n"}
+	users := []string{"func U1(x uint64) uint64 {\n\tv := measure(Sq{w: x})\n\treturn v + U2(x)\n}\n",
+		"func U2(x uint64) uint64 {\n\tq := Sq{w: x + 1}\n\tv := measure(q)\n\treturn v\n}\n",
+		"func A0(x uint64) uint64 {\n\treturn U2(x) + 1\n}\n"}
+	orders := [][]int{{0, 1, 2}, {0, 2, 1}, {1, 0, 2}, {1, 2, 0}, {2, 0, 1}, {2, 1, 0}}
+	srcs := map[string]string{}
+	k := 0
+	for _, o := range orders {
+		for _, typesFirst := range []bool{true, false} {
+			for _, twoFiles := range []bool{false, true} {
+				name := fmt.Sprintf("cv%d", k)
+				k++
+				var us []string
+				for _, ix := range o {
+					us = append(us, users[ix])
+				}
+				dir := filepath.Join(m.dir, name)
+				_ = os.MkdirAll(dir, 0755)
+				tsrc, usrc := strings.Join(types, "\n"), strings.Join(us, "\n")
+				if twoFiles {
+					fa, fb := "a.go", "b.go"
+					if typesFirst {
+						fa, fb = "b.go", "a.go" // the users' file sorts first
+					}
+					_ = os.WriteFile(filepath.Join(dir, fa), []byte("package gen\n\n"+tsrc), 0644)
+					_ = os.WriteFile(filepath.Join(dir, fb), []byte("package gen\n\n"+usrc), 0644)
+					srcs[name] = "// " + fa + "\n" + tsrc + "\n// " + fb + "\n" + usrc
+				} else {
+					body := tsrc + "\n" + usrc
+					if !typesFirst {
+						body = usrc + "\n" + tsrc
+					}
+					_ = os.WriteFile(filepath.Join(dir, "a.go"), []byte("package gen\n\n"+body), 0644)
+					srcs[name] = body
+				}
+				m.pkgs = append(m.pkgs, name)
+			}
+		}
+	}
+	gout := m.runGoose(c)
+	if gout.exit == 2 || strings.Contains(gout.stderr, "goroutine ") {
+		c04CrashTriage(c, m, gout.stderr)
+		return
+	}
+	reConv := regexp.MustCompile(`\b[A-Za-z0-9_]+__to__[A-Za-z0-9_]+\b`)
+	for _, name := range m.pkgs {
+		text, ok := gout.files[name]
+		if !ok {
+			continue // rejected: not judged here
+		}
+		files := map[string]string{"gen.go.txt": srcs[name], "emitted.v": text}
+		prog, perr := vparse.ParseFile(text)
+		if perr != nil {
+			c.Inconclusive("emitted file of %s does not parse: %v", name, perr)
+			continue
+		}
+		count := map[string]int{}
+		for _, d := range prog.Decls {
+			if d.Name != "" && (d.Kind == "def" || d.Kind == "structdecl" || d.Kind == "tydef") {
+				count[d.Name]++
+			}
+		}
+		for n, k := range count {
+			if k > 1 {
+				c.Report("c04.names", fmt.Sprintf("package %s: %s is defined %d times", name, n, k), files)
+			}
+		}
+		for _, cv := range reConv.FindAllString(text, -1) {
+			if count[cv] == 0 {
+				c.Report("c04.conversion-undefined", fmt.Sprintf("package %s: the generated conversion %s is used but never defined", name, cv), files)
+				break
+			}
+		}
+		for _, pr := range defOrderProblems(prog) {
+			c.Report("c04.conversion-order", fmt.Sprintf("package %s: %s", name, pr[1]), files)
+		}
+		if c.NViolations() > 8 {
+			break
+		}
 	}
 }
